@@ -26,7 +26,7 @@ var c10Axis = map[string]string{
 func c10(c *core.Check) {
 	c.Explain = "Thin: structural necessary conditions of CSS 2.1 block sizing, decided on the SSA form: (R1) every used value computed by resolveOnePercentage is stored in the box field of the property it was read from, under that property's id, and is a percentage of the right dimension of the containing block (vertical margins and paddings refer to the width, except for page boxes); (R2) the min/max wrappers clamp to max first and min second (min wins), re-run the wrapped function after each clamp and only touch the fields of their own axis; (R3) the box-sizing adjustment subtracts padding and border for border-box, padding only for padding-box and nothing for content-box, per axis. The width equation (10.3.3), auto margins, margin collapsing and auto heights are numerical relations this family does not decide. Also decided: (R10) boolean conditions over box edges test each kind of edge on the same sides."
 	p := c.Prog
-	r1 := c.Rule("R1", "each `box.F = resolveOnePercentage(style.GetG(), P_H, ref, …)` has F = G = H and ref derived from the containing block's width for horizontal properties and for vertical margins/paddings (height only under the page-box test), from its height for top/bottom/heights", 21)
+	r1 := c.Rule("R1", "each `box.F = resolveOnePercentage(style.GetG(), P_H, ref, …)` has F = G = H and ref derived from the containing block's width for horizontal properties and for vertical margins/paddings (height only under the page-box test), from its height for top/bottom/heights", 20)
 	rop := p.Fn("html/layout", "resolveOnePercentage")
 	if rop == nil {
 		r1.Anchor("html/layout.resolveOnePercentage")
@@ -124,14 +124,14 @@ func c10(c *core.Check) {
 	c10Rerun(c)
 	c10SavedBeforeFirstRun(c)
 	c10LastInFlowChild(c)
-	r4 := c.Rule("R4", "sibling symmetry in block layout code: two assignments of one block that differ by a side (Top/Bottom, Left/Right) on the left and have the same shape on the right mirror every side name of that axis (a half-mirrored pair is a copy-paste slip between the two sides of a box)", 6)
+	r4 := c.Rule("R4", "sibling symmetry in block layout code: two assignments of one block that differ by a side (Top/Bottom, Left/Right) on the left and have the same shape on the right mirror every side name of that axis (a half-mirrored pair is a copy-paste slip between the two sides of a box)", 5)
 	sideSymmetryRule(c, r4, "html/layout", map[string]bool{"blocks.go": true, "percentages.go": true, "min_max.go": true, "absolute.go": true, "float.go": true, "replaced.go": true, "preferred.go": true, "tables.go": true, "flex.go": true, "pages.go": true, "backgrounds.go": true, "columns.go": true, "grid.go": true}, 6)
 	r5 := c.Rule("R5", "box-edge sums: an additive expression over margins, paddings and border widths mentions each kind of edge with the same sides (both sides of an axis for all of them, or one side for all of them): a sum with the padding of both sides and twice the same border is a copy-paste slip", 44)
 	sideSumRule(c, r5, "html/layout", map[string]bool{"blocks.go": true, "percentages.go": true, "min_max.go": true, "absolute.go": true, "float.go": true, "replaced.go": true, "preferred.go": true, "tables.go": true, "flex.go": true, "pages.go": true, "backgrounds.go": true, "columns.go": true, "grid.go": true}, 30)
 	sideSumRule(c, r5, "html/boxes", nil, 3)
-	r10 := c.Rule("R10", "box-edge conditions: a boolean condition that tests several kinds of box edges (border, padding, margin) tests each kind on the same sides — the border and the padding that keep a margin from collapsing are those of the margin's own side (CSS 2.1 §8.3.1)", 3)
+	r10 := c.Rule("R10", "box-edge conditions: a boolean condition that tests several kinds of box edges (border, padding, margin) tests each kind on the same sides — the border and the padding that keep a margin from collapsing are those of the margin's own side (CSS 2.1 §8.3.1)", 1)
 	sideCondRule(c, r10, "html/layout", nil, 4)
-	r11 := c.Rule("R11", "two-element assignments between values named after the sides of a box (margins saved and restored, left/right, top/bottom) are not crossed", 7)
+	r11 := c.Rule("R11", "two-element assignments between values named after the sides of a box (margins saved and restored, left/right, top/bottom) are not crossed", 6)
 	sideTupleRule(c, r11, "html/layout", 8)
 	r6 := c.Rule("R6", "no call passes two same-typed arguments under each other's parameter names (swapped arguments): every pair of arguments named after the callee's parameters is aligned with them", 94)
 	argNameRule(c, r6, "html/layout", map[string]bool{"blocks.go": true, "percentages.go": true, "min_max.go": true, "absolute.go": true, "float.go": true, "replaced.go": true, "preferred.go": true, "tables.go": true, "flex.go": true, "grid.go": true, "layout.go": true, "backgrounds.go": true}, 90)
@@ -268,7 +268,7 @@ func paramSpill(al *ssa.Alloc) *ssa.Parameter {
 // ---- R2 min/max wrappers
 func c10MinMax(c *core.Check) {
 	p := c.Prog
-	r := c.Rule("R2", "the min/max wrappers: the max clamp is tested before the min clamp (so min wins), each clamp re-runs the wrapped function, and each wrapper writes only the size and the two margins of its own axis", 9)
+	r := c.Rule("R2", "the min/max wrappers: the max clamp is tested before the min clamp (so min wins), each clamp re-runs the wrapped function, and each wrapper writes only the size and the two margins of its own axis", 8)
 	for _, w := range []struct{ name, size, max, min, m1, m2 string }{
 		{"handleMinMaxWidth$1", "Width", "MaxWidth", "MinWidth", "MarginLeft", "MarginRight"},
 		{"handleMinMaxHeight$1", "Height", "MaxHeight", "MinHeight", "MarginTop", "MarginBottom"},
@@ -407,7 +407,7 @@ func c10MinMax(c *core.Check) {
 // ---- R3 box-sizing
 func c10BoxSizing(c *core.Check) {
 	p := c.Prog
-	r := c.Rule("R3", "resolvePercentages: the box-sizing adjustment of an axis depends on the paddings and border widths of that axis for border-box, on its paddings only for padding-box, and on nothing for content-box", 6)
+	r := c.Rule("R3", "resolvePercentages: the box-sizing adjustment of an axis depends on the paddings and border widths of that axis for border-box, on its paddings only for padding-box, and on nothing for content-box", 4)
 	fn := p.Fn("html/layout", "resolvePercentages")
 	if fn == nil {
 		r.Anchor("html/layout.resolvePercentages")
